@@ -87,6 +87,12 @@ func (j *JWK) UnmarshalJSON(jwkBytes []byte) error {
 
 		*j = *jwk
 	} else {
+		// go-jose pads or truncates an Ed25519 coordinate of the wrong width instead of refusing it
+		if key.Kty == "OKP" && key.Crv == "Ed25519" && key.D == nil &&
+			(key.X == nil || len(key.X.data) != ed25519.PublicKeySize) {
+			return fmt.Errorf("unable to read JWK: %w", ErrInvalidKey)
+		}
+
 		var joseJWK jose.JSONWebKey
 
 		err := json.Unmarshal(jwkBytes, &joseJWK)
